@@ -1,8 +1,11 @@
 //! Runner `rcl`: `RearCodedListBuilder` / `RearCodedList` (C09, C12).
 //!
 //! Protocol (see `SuxModel/RCL/Runner.lean`): byte strings as lower-case hex, `-` = empty.
-//! `new k`, `push <hex>`, `build`, then observers `parts len get get_in_place iter lend iter_from
-//! lend_from into_iter_from into_lender index_of contains`.
+//! `new k`, `push <hex>`, `extend [hex,..]` (builder `extend` from a lender of `&str`), `print_stats`
+//! (finding B1: only generated while the redundancy statistic is >= 0), `build`, then observers
+//! `parts len get get_in_place iter into_iter lend iter_from lend_from into_iter_from into_lender
+//! index_of contains`, and `iter_proto j k` / `lend_proto j k` (`iter_from(j)` / `Lend::new`,
+//! `Lend::new_from(j)`, then `nth(k)`, `len`, `count`; `last` of a second one).
 //! The private fields `(k, len, is_sorted, data, pointers)` are read through the derived `Debug`.
 //! Naive oracle: the `Vec<Vec<u8>>` of pushed strings; an independent (loop-style) re-encoder for
 //! `parts`.  Op `vbyte <value> <tail hex>` drives the private `encode_int` / `encode_int_len` /
@@ -11,8 +14,8 @@
 //! `encode_len_diverges`).  About 5 % of the probes of `index_of`/`contains` contain NUL bytes (sorted and
 //! unsorted lists): such keys are never stored and must be reported absent.
 use crate::common::*;
-use lender::{ExactSizeLender, IntoLender, Lender};
-use sux::dict::rear_coded_list::verif_vbyte;
+use lender::{ExactSizeLender, IntoLender, IteratorExt, Lender};
+use sux::dict::rear_coded_list::{verif_vbyte, Lend};
 use sux::dict::{RearCodedList, RearCodedListBuilder};
 use sux::traits::{IndexedDict, IndexedSeq, IntoIteratorFrom};
 
@@ -151,6 +154,77 @@ fn naive_encode(k: usize, strs: &[Vec<u8>]) -> (Vec<u8>, Vec<usize>) {
     (data, ptrs)
 }
 
+/// `[61,-,6262]` -> byte strings
+fn unhex_list(s: &str) -> Vec<Vec<u8>> {
+    let inner = &s[1..s.len() - 1];
+    if inner.is_empty() {
+        vec![]
+    } else {
+        inner.split(',').map(unhex).collect()
+    }
+}
+
+/// `stats.redundancy` of the builder, recomputed from the pushed strings: at every block start
+/// but the first, `+ lcp(previous, current) - encode_int_len(previous.len() - lcp)`
+fn naive_redundancy(k: usize, strs: &[Vec<u8>]) -> i128 {
+    let mut r: i128 = 0;
+    if k == 0 {
+        return 0;
+    }
+    for i in 1..strs.len() {
+        if i % k == 0 {
+            let (p, c) = (&strs[i - 1], &strs[i]);
+            let lcp = p.iter().zip(c.iter()).take_while(|(a, b)| a == b).count();
+            let mut code = vec![];
+            naive_vbyte((p.len() - lcp) as u64, &mut code);
+            r += lcp as i128 - code.len() as i128;
+        }
+    }
+    r
+}
+
+/// run `f` with the process's standard output pointing to /dev/null (`print_stats` writes ~20
+/// lines with `println!`); plain libc calls, no extra crate.  Under Miri the call is made as is.
+fn with_stdout_null<T>(f: impl FnOnce() -> T) -> T {
+    #[cfg(all(unix, not(miri)))]
+    {
+        use std::io::Write;
+        use std::os::fd::AsRawFd;
+        extern "C" {
+            fn dup(fd: i32) -> i32;
+            fn dup2(a: i32, b: i32) -> i32;
+            fn close(fd: i32) -> i32;
+        }
+        let _ = std::io::stdout().flush();
+        let null = std::fs::OpenOptions::new().write(true).open("/dev/null");
+        if let Ok(null) = null {
+            unsafe {
+                let saved = dup(1);
+                if saved >= 0 {
+                    dup2(null.as_raw_fd(), 1);
+                    let r = f();
+                    let _ = std::io::stdout().flush();
+                    dup2(saved, 1);
+                    close(saved);
+                    return r;
+                }
+            }
+        }
+        f()
+    }
+    #[cfg(not(all(unix, not(miri))))]
+    {
+        f()
+    }
+}
+
+fn fmt_oh(x: Option<Vec<u8>>) -> String {
+    match x {
+        Some(b) => hex(&b),
+        None => "none".into(),
+    }
+}
+
 fn fmt_drain(hints: &[usize], items: &[Vec<u8>]) -> String {
     format!(
         "ok {} {}",
@@ -189,6 +263,35 @@ fn exec(ctx: &mut Ctx, s: &mut S, op: &str) {
                 );
             }
             (r.map(|_| "ok".into()), o)
+        }
+        "extend" => {
+            // `RearCodedListBuilder::extend` from a lender of `&str`
+            let items = unhex_list(t[1]);
+            let strs: Vec<String> = items
+                .iter()
+                .map(|b| String::from_utf8(b.clone()).expect("extend: op is not UTF-8"))
+                .collect();
+            let r = catch(|| s.builder.extend(strs.iter().map(|x| x.as_str()).into_lender()));
+            let o = if s.k == 0 && !items.is_empty() {
+                "panic".to_string()
+            } else {
+                s.pushed.extend(items);
+                "ok".into()
+            };
+            if r.is_some() && s.builder.len() != s.pushed.len() {
+                ctx.check_oracle(
+                    &format!("builder len {}", s.pushed.len()),
+                    &format!("builder len {}", s.builder.len()),
+                );
+            }
+            (r.map(|_| "ok".into()), o)
+        }
+        "print_stats" => {
+            // must not panic whatever has been pushed (the oracle's expectation).  FINDING B1:
+            // it does whenever `stats.redundancy` is negative; the generators only emit the op
+            // when `naive_redundancy >= 0`, the Lean model predicts the panic for a replay
+            let r = catch(|| with_stdout_null(|| s.builder.print_stats()));
+            (r.map(|_| "ok".into()), "ok".into())
         }
         "vbyte" => {
             let v: u64 = t[1].parse().unwrap();
@@ -275,16 +378,56 @@ fn exec(ctx: &mut Ctx, s: &mut S, op: &str) {
                     };
                     (r, o)
                 }
-                "iter" | "lend" | "iter_from" | "lend_from" | "into_iter_from" | "into_lender" => {
+                "iter_proto" | "lend_proto" => {
+                    // iterator / lender protocol methods that a plain drain does not use: `nth(k)`,
+                    // then `len()` (+ `size_hint()`), then `count()`; `last()` on a fresh one.
+                    // `lend_proto` goes through the explicit constructors `Lend::{new, new_from}`.
+                    let (j, k) = (num(1), num(2));
+                    let r = catch(|| {
+                        if t[0] == "iter_proto" {
+                            let mut it = rcl.iter_from(j);
+                            let a = it.nth(k).map(|x| x.into_bytes());
+                            let l = ExactSizeIterator::len(&it);
+                            let hint_ok = it.size_hint() == (l, Some(l));
+                            let c = it.count();
+                            let last = rcl.iter_from(j).last().map(|x| x.into_bytes());
+                            (format!("ok {} {} {} {}", fmt_oh(a), l, c, fmt_oh(last)), hint_ok)
+                        } else {
+                            let mk = || if j == 0 { Lend::new(rcl) } else { Lend::new_from(rcl, j) };
+                            let mut it = mk();
+                            let a = it.nth(k).map(|x| x.as_bytes().to_vec());
+                            let l = ExactSizeLender::len(&it);
+                            let hint_ok = it.size_hint() == (l, Some(l));
+                            let c = it.count();
+                            let last = mk().last().map(|x| x.as_bytes().to_vec());
+                            (format!("ok {} {} {} {}", fmt_oh(a), l, c, fmt_oh(last)), hint_ok)
+                        }
+                    });
+                    if let Some((_, false)) = r {
+                        ctx.check_oracle("size_hint = (len, Some(len))", "size_hint differs");
+                    }
+                    let rest = &strs[j.min(n)..];
+                    let left = rest.len() - Ord::min(rest.len(), k.saturating_add(1));
+                    let o = format!(
+                        "ok {} {} {} {}",
+                        fmt_oh(rest.get(k).cloned()),
+                        left,
+                        left,
+                        fmt_oh(rest.last().cloned())
+                    );
+                    (r.map(|x| x.0), o)
+                }
+                "iter" | "into_iter" | "lend" | "iter_from" | "lend_from" | "into_iter_from" | "into_lender" => {
                     let j = if t.len() > 1 { num(1) } else { 0 };
                     let r = catch(|| {
                         let mut hints = vec![];
                         let mut items: Vec<Vec<u8>> = vec![];
                         let mut hint_ok = true;
                         match t[0] {
-                            "iter" | "iter_from" | "into_iter_from" => {
+                            "iter" | "into_iter" | "iter_from" | "into_iter_from" => {
                                 let mut it = match t[0] {
                                     "iter" => rcl.iter(),
+                                    "into_iter" => IntoIterator::into_iter(rcl),
                                     "iter_from" => rcl.iter_from(j),
                                     _ => rcl.into_iter_from(j),
                                 };
@@ -540,10 +683,53 @@ fn is_sorted(v: &[String]) -> bool {
 }
 
 /// build a list and run the standard battery of observers on it
-fn run_list(ctx: &mut Ctx, s: &mut S, k: usize, strs: &[String], probes: &[String], idxs: &[usize]) {
+/// `print_stats` is only issued while the builder's redundancy statistic is non-negative
+/// (finding B1: it panics otherwise)
+fn maybe_print_stats(ctx: &mut Ctx, s: &mut S) {
+    if naive_redundancy(s.k, &s.pushed) >= 0 {
+        ctx.stat("print_stats");
+        exec(ctx, s, "print_stats");
+    } else {
+        ctx.stat("print_stats:skipped-negative-redundancy");
+    }
+}
+
+/// `how`: 0 = one `push` per string, 1 = one `extend` with everything, otherwise `extend` in
+/// chunks of `how` strings with single pushes in between
+fn run_list_how(ctx: &mut Ctx, s: &mut S, k: usize, strs: &[String], probes: &[String], idxs: &[usize], how: usize) {
     exec(ctx, s, &format!("new {}", k));
-    for x in strs {
-        exec(ctx, s, &format!("push {}", hex(x.as_bytes())));
+    let hl = |xs: &[String]| hex_list(xs.iter().map(|x| x.as_bytes()));
+    match how {
+        0 => {
+            for x in strs {
+                exec(ctx, s, &format!("push {}", hex(x.as_bytes())));
+            }
+        }
+        1 => exec(ctx, s, &format!("extend {}", hl(strs))),
+        c => {
+            exec(ctx, s, "extend []");
+            let mut i = 0;
+            while i < strs.len() {
+                let e = (i + c).min(strs.len());
+                exec(ctx, s, &format!("extend {}", hl(&strs[i..e])));
+                i = e;
+                if i < strs.len() {
+                    exec(ctx, s, &format!("push {}", hex(strs[i].as_bytes())));
+                    i += 1;
+                }
+            }
+        }
+    }
+    finish_list(ctx, s, probes, idxs);
+}
+
+fn run_list(ctx: &mut Ctx, s: &mut S, k: usize, strs: &[String], probes: &[String], idxs: &[usize]) {
+    run_list_how(ctx, s, k, strs, probes, idxs, 0)
+}
+
+fn finish_list(ctx: &mut Ctx, s: &mut S, probes: &[String], idxs: &[usize]) {
+    if s.k > 0 {
+        maybe_print_stats(ctx, s);
     }
     exec(ctx, s, "build");
     exec(ctx, s, "parts");
@@ -559,8 +745,17 @@ fn run_list(ctx: &mut Ctx, s: &mut S, k: usize, strs: &[String], probes: &[Strin
 }
 
 fn all_iters(ctx: &mut Ctx, s: &mut S, n: usize) {
-    for op in ["iter", "lend", "into_lender"] {
+    for op in ["iter", "into_iter", "lend", "into_lender"] {
         exec(ctx, s, op);
+    }
+    for j in [0, 1, n / 2, n, n + 1] {
+        let rest = n.saturating_sub(j);
+        let mut ks = vec![0, 1, rest.saturating_sub(1), rest, usize::MAX];
+        ks.dedup();
+        for k in ks {
+            exec(ctx, s, &format!("iter_proto {} {}", j, k));
+            exec(ctx, s, &format!("lend_proto {} {}", j, k));
+        }
     }
     for j in 0..=n + 1 {
         exec(ctx, s, &format!("iter_from {}", j));
@@ -664,7 +859,13 @@ fn directed(ctx: &mut Ctx) {
             // keys containing NUL: never stored; must not be confused with `head NUL next-entry`
             probes.extend(w(&["\0", "a\0", "a\0b", "a\0a", "aa\0", "b\0\0x", "abc\0ab", "x\0x", "\0a", "é\0ê"]));
             let idxs: Vec<usize> = (0..n + 3).chain([usize::MAX]).collect();
-            run_list(ctx, &mut s, k, strs, &probes, &idxs);
+            let how = match k {
+                2 | 64 => 1,
+                3 => 2,
+                0 => 3,
+                _ => 0,
+            };
+            run_list_how(ctx, &mut s, k, strs, &probes, &idxs, how);
             all_iters(ctx, &mut s, n);
             // the builder stays usable after build
             exec(ctx, &mut s, "push 7a7a7a");
@@ -672,6 +873,12 @@ fn directed(ctx: &mut Ctx) {
             exec(ctx, &mut s, "parts");
             exec(ctx, &mut s, "iter");
             exec(ctx, &mut s, "index_of 7a7a7a");
+            exec(ctx, &mut s, "extend [7a7a7a,7a7a7a61]");
+            if k > 0 {
+                maybe_print_stats(ctx, &mut s);
+            }
+            exec(ctx, &mut s, "build");
+            exec(ctx, &mut s, "into_iter");
             ctx.shape(format!("directed:{}:{}", n, k));
         }
     }
@@ -730,13 +937,30 @@ fn random_case(ctx: &mut Ctx) {
     let probes: Vec<String> = (0..np).map(|_| gen_probe(ctx, &strs, k)).collect();
     let ni = 3 + ctx.rng.usize_below(8);
     let idxs: Vec<usize> = (0..ni).map(|_| gen_index(ctx, n, k)).collect();
-    run_list(ctx, &mut s, k, &strs, &probes, &idxs);
+    let how = match ctx.rng.below(6) {
+        0 => 1,
+        1 => 2 + ctx.rng.usize_below(7),
+        _ => 0,
+    };
+    run_list_how(ctx, &mut s, k, &strs, &probes, &idxs, how);
     for _ in 0..(2 + ctx.rng.usize_below(5)) {
         let j = gen_index(ctx, n, k);
         let op = *ctx.rng.pick(&["iter_from", "lend_from", "into_iter_from"]);
         exec(ctx, &mut s, &format!("{} {}", op, j));
     }
-    let op = *ctx.rng.pick(&["iter", "lend", "into_lender"]);
+    for op in ["iter_proto", "lend_proto"] {
+        let j = gen_index(ctx, n, k);
+        let rest = n.saturating_sub(j);
+        let kk = match ctx.rng.below(5) {
+            0 => 0,
+            1 => rest,
+            2 => rest.saturating_sub(1),
+            3 => usize::MAX - ctx.rng.usize_below(2),
+            _ => ctx.rng.usize_below(rest + 2),
+        };
+        exec(ctx, &mut s, &format!("{} {} {}", op, j, kk));
+    }
+    let op = *ctx.rng.pick(&["iter", "into_iter", "lend", "into_lender"]);
     exec(ctx, &mut s, op);
     let sorted = is_sorted(&strs);
     let dup = {
